@@ -219,6 +219,14 @@ m1 1001 1.0
 m1 8016 1 1001 2
 m2 26000 -0.7 6012 -0.3
 ''', []),
+    'fortran_spelled_fraction_copied': ('''Fortran spellings of mass fractions copied into a DENSITY block (open, shared with C10)
+1 5 -1.0 -1 imp:n=1
+2 0 1 imp:n=0
+
+1 so 2
+
+m5 1001 -1.5d-1 8016 -8.5-1
+''', []),
     'bc_on_merged_duplicate': ('''flag carried by a surface merged into its duplicate
 1 1 -1.0 -1 2 imp:n=1
 2 0 1 : -3 imp:n=0
@@ -252,6 +260,10 @@ def classify(problem, conv, cap, rd, args):
             return 'negative_importance_no_composition'
         return None
     if clause == 'number':
+        m = re.match(r"composition \S+: amount '([^']+)' of ", msg)
+        if m and re.fullmatch(r'[\d.]+([dD][-+]?\d+|[-+]\d+)', m.group(1)) \
+                and m.group(1) in [a for _, fr, _ in cap.mats for _, a in fr]:
+            return 'fortran_spelled_fraction_copied'
         m = re.match(r"SURF (\d+): '(inf|-inf|nan)'", msg)
         if m:
             for surf in cap.surfs:
@@ -312,7 +324,8 @@ def make_case(conv, cap, args, verdict):
     open_flag = any((c[2] not in card_keys and c[2] != 0) or c[7] < 0
                     for c in cap.cells) \
         or any(v != v or v in (float('inf'), float('-inf'))
-               for surf in cap.surfs for v in surf[2])
+               for surf in cap.surfs for v in surf[2]) \
+        or any(not val.NUMBER.match(a) for _, fr, _ in cap.mats for _, a in fr)
     return f'({term},\n {obs}, {valid})', open_flag
 
 
